@@ -21,20 +21,20 @@ type Engine struct {
 	spkgs   map[string]*ssa.Package
 	specs   map[string]*PkgSpec
 
-	heapKeys     map[string]*Sort
-	closures     map[string]ClosureV
-	typeTags     map[string]int
-	tagTypes     map[int]types.Type
-	strLits      map[string]int
-	typeCache    map[string]types.Type
-	pkgFilePos   map[string][]token.Pos
-	extraPkgs    map[string]*types.Package
-	importAlias  map[string]map[string]*types.Package // package path -> import alias -> package
-	allTypesPkgs []*types.Package
-	loopCache    map[*ssa.Function]map[*ssa.BasicBlock]*loopInfo
+	heapKeys       map[string]*Sort
+	closures       map[string]ClosureV
+	typeTags       map[string]int
+	tagTypes       map[int]types.Type
+	strLits        map[string]int
+	typeCache      map[string]types.Type
+	pkgFilePos     map[string][]token.Pos
+	extraPkgs      map[string]*types.Package
+	importAlias    map[string]map[string]*types.Package // package path -> import alias -> package
+	allTypesPkgs   []*types.Package
+	loopCache      map[*ssa.Function]map[*ssa.BasicBlock]*loopInfo
 	ledgerLoopKeys map[string][]string // loop headers of the unchanged tree (from the ledger), by function
 	srcCache       map[string][]byte
-	globalInit   map[string]globalInitInfo
+	globalInit     map[string]globalInitInfo
 
 	obls    []*Obligation
 	covers  []*Obligation
